@@ -12,6 +12,8 @@ type GenEnv struct {
 	// NoEnterprise restricts field specifiers to IANA elements (for checks whose code under test runs in
 	// another process, where the harness's enterprise elements are not installed).
 	NoEnterprise bool
+	// Missing: IANA element ids that are not part of the information model in force (default: ids no table knows)
+	Missing []int
 	// OffSpecLengths: fixed-size types are sometimes declared LONGER than their natural size (outside RFC 7011,
 	// but accepted by the decoders): only for checks whose oracle does not interpret the octets itself
 	OffSpecLengths bool
@@ -26,6 +28,14 @@ type GenEnv struct {
 }
 
 func NewGenEnv(proto string) *GenEnv { return NewGenEnvFrom(proto, Elements()) }
+
+// MissingIDs lists element ids a template can name that the information model does not hold.
+func (e *GenEnv) MissingIDs() []int {
+	if len(e.Missing) > 0 {
+		return e.Missing
+	}
+	return []int{434, 500, 9999, 32767}
+}
 
 // NewGenEnvFrom builds the generator environment from an element list of the caller's (e.g. a registry snapshot)
 // instead of the live information model.
@@ -426,4 +436,37 @@ func RedefineOtherLengths(t *rapid.T, cur *Template) Template {
 		fs[0].Len = uint16(n)
 	}
 	return tp
+}
+
+// RetouchTemplate returns tp with exactly one field specifier changed: a scope field (scope == true and tp has scope
+// fields) or an ordinary field names another IANA element of the same abstract type at the same length. Counts, lengths,
+// order and every other specifier stay, so records encoded for tp are well-formed under the result too.
+func RetouchTemplate(tp *Template, scope bool, a int) (Template, bool) {
+	out := Template{ID: tp.ID, Options: tp.Options, Scope: append([]Field{}, tp.Scope...), Fields: append([]Field{}, tp.Fields...)}
+	used := map[[2]uint32]bool{}
+	for _, f := range tp.All() {
+		used[[2]uint32{f.PEN, uint32(f.ID)}] = true
+	}
+	fs := out.Fields
+	if scope && len(out.Scope) > 0 {
+		fs = out.Scope
+	}
+	if len(fs) == 0 {
+		return out, false
+	}
+	if a < 0 {
+		a = -a
+	}
+	all := Elements()
+	for j := 0; j < len(fs); j++ {
+		i := (a + j) % len(fs)
+		for k := 0; k < len(all); k++ {
+			e := all[(a+k)%len(all)]
+			if e.PEN == 0 && e.Type == fs[i].Type && !used[[2]uint32{0, uint32(e.ID)}] && fs[i].PEN == 0 {
+				fs[i].ID = e.ID
+				return out, true
+			}
+		}
+	}
+	return out, false
 }
